@@ -115,6 +115,15 @@ func runC20(w *World, r *Report) {
 		r.bad("analyser", "aeswrapper.Helper.Decrypt/Encrypt", "-", "anchor functions must resolve", "not found")
 		return
 	}
+	// the wallet's file form is produced and read by pure functions of their input: a buffer shared between calls
+	// lets one wallet's bytes be sealed into another wallet's file
+	r.rule("wallet-coding-stateless", "the functions that produce or read the wallet's stored form touch no package-level mutable state", 4)
+	for _, spec := range [][3]string{{"wallet", "Wallet", "EncodeGOB"}, {"wallet", "", "DecodeGOBWallet"}, {"aeswrapper", "Helper", "Encrypt"}, {"aeswrapper", "Helper", "Decrypt"},
+		{"fileoperations", "Helper", "SaveWallet"}, {"fileoperations", "Helper", "ReadWallet"}} {
+		if f := w.fx(r, spec[0], spec[1], spec[2]); f != nil {
+			statelessObligation(w, r, "wallet-coding-stateless", f.fn)
+		}
+	}
 	fe := NewFactEngine(w, w.RepoFuncs("aeswrapper", "fileoperations", "wallet"))
 	r.rule("D3-bounds", "the nonce / ciphertext split of the input is covered by a dominating length fact", 2)
 	d3Obligations(w, r, fe, "D3-bounds", dec)
